@@ -218,7 +218,7 @@ check_all(void)
             int    seen[NEL], n = 0, guard = 0;
             for (e = 0; e < NEL; e++)
                 seen[e] = 0;
-            while (guard++ < 12 && Hfind(fid, DFTAG_WILDCARD, DFREF_WILDCARD, &ft, &fr, &fo, &fl, dir ? DF_BACKWARD : DF_FORWARD) == SUCCEED) {
+            while (guard++ < 48 && Hfind(fid, DFTAG_WILDCARD, DFREF_WILDCARD, &ft, &fr, &fo, &fl, dir ? DF_BACKWARD : DF_FORWARD) == SUCCEED) {
                 uint16 bt = (uint16)(ft & 0x4000 ? ft & ~0x4000 : ft);
                 if (bt == DFTAG_VERSION || bt == DFTAG_LINKED || ft == DFTAG_NULL || ft == DFTAG_FREE)
                     continue;
@@ -248,7 +248,7 @@ check_all(void)
             for (k2 = 0; k2 < NEL; k2++)
                 if (G[k2].exists && REF[k2] == REF[e])
                     want++;
-            while (guard++ < 12 && Hfind(fid, DFTAG_WILDCARD, REF[e], &ft, &fr, &fo, &fl, dir ? DF_BACKWARD : DF_FORWARD) == SUCCEED) {
+            while (guard++ < 48 && Hfind(fid, DFTAG_WILDCARD, REF[e], &ft, &fr, &fo, &fl, dir ? DF_BACKWARD : DF_FORWARD) == SUCCEED) {
                 uint16 bt = (uint16)(ft & 0x4000 ? ft & ~0x4000 : ft);
                 if (bt == DFTAG_VERSION || bt == DFTAG_LINKED)
                     continue;
@@ -262,7 +262,7 @@ check_all(void)
             for (k2 = 0; k2 < NEL; k2++)
                 if (G[k2].exists && TAG[k2] == TAG[e])
                     want++;
-            while (guard++ < 12 && Hfind(fid, TAG[e], DFREF_WILDCARD, &ft, &fr, &fo, &fl, dir ? DF_BACKWARD : DF_FORWARD) == SUCCEED) {
+            while (guard++ < 48 && Hfind(fid, TAG[e], DFREF_WILDCARD, &ft, &fr, &fo, &fl, dir ? DF_BACKWARD : DF_FORWARD) == SUCCEED) {
                 if (fr == REF[e])
                     hit++;
                 n++;
